@@ -81,8 +81,8 @@ def _op_job(args):
             out.setdefault('finter', False)
         return dict(jid=jid, mode=mode, inst=inst, diffs=diffs, ev=nodepar.normalise_events(ev), info=info, out=out)
     except Exception as e:  # noqa
-        import traceback
-        return dict(jid=jid, error=f'{type(e).__name__}: {e} {traceback.format_exc()[-500:]}')
+        from lib.errors import describe
+        return dict(jid=jid, error=describe(e, 500))
 
 
 def _run_job(args):
@@ -122,8 +122,8 @@ def _run_job(args):
             diffs = nodepar.compare_float(ser, par)
         return dict(jid=jid, kind=kind, cfg=cfg, diffs=diffs, ev=nodepar.normalise_events(par['events']), nsteps=cfg['nsteps'], M=cfg['M'])
     except Exception as e:  # noqa
-        import traceback
-        return dict(jid=jid, error=f'{type(e).__name__}: {e} {traceback.format_exc()[-500:]}')
+        from lib.errors import describe
+        return dict(jid=jid, error=describe(e, 500))
 
 
 def _tvnp_job(args):
@@ -215,7 +215,8 @@ def run_part(rep, pool, scratch, tier, rng):
     for o in op_out:
         j = byjid_op[o['jid']]
         if 'error' in o:
-            rep.machinery.append('node-parallel operation failed in the harness: ' + o['error'])
+            rep.problem('node-parallel operation failed: ' + o['error'], dict(kind='nodepar-op', mode=j[1], inst=j[2], P=j[3], sched_seed=j[4], policy=j[5]),
+                        clause='nodepar.unexpected_library_error')
             continue
         if 'skipped' in o:
             nskip += 1
@@ -230,7 +231,8 @@ def run_part(rep, pool, scratch, tier, rng):
     for o in run_out:
         j = byjid_run[o['jid']]
         if 'error' in o:
-            rep.machinery.append('node-parallel run failed in the harness: ' + o['error'])
+            rep.problem('node-parallel run failed: ' + o['error'], dict(kind='nodepar-run', flavour=j[1], cfg=j[2], sched_seed=j[3], policy=j[4]),
+                        clause='nodepar.unexpected_library_error')
             continue
         for name, text in o['diffs']:
             rep.violation('nodepar.equal.' + name, dict(kind='nodepar-run', what=name, detail=text, flavour=j[1], cfg=j[2], sched_seed=j[3], policy=j[4]))
